@@ -17,6 +17,7 @@ type VerifyStats struct {
 	JFalseSites   int // JFALSE instructions whose both successors were explored
 	MaxDepth      int
 	MaxBlockDepth int
+	MaxJump       int // largest forward jump operand
 }
 
 type absState struct{ pc, depth, blocks int }
@@ -174,12 +175,18 @@ func Verify(p *Prog) (VerifyStats, error) {
 			}
 			next.depth--
 		case JUMP:
+			if in.A > st.MaxJump {
+				st.MaxJump = in.A
+			}
 			next.pc += in.A
 		case LOOP:
 			next.pc -= in.A
 		case JFALSE:
 			if err := need(1); err != nil {
 				return st, err
+			}
+			if in.A > st.MaxJump {
+				st.MaxJump = in.A
 			}
 			taken := next
 			taken.pc += in.A
